@@ -1,0 +1,8 @@
+//go:build !verif
+
+package nsqd
+
+// verifPoint marks a named point between two critical sections for the verification
+// harness; without the verif build tag it is an empty function that the compiler
+// inlines away.
+func verifPoint(string) {}
